@@ -28,7 +28,8 @@ func init() {
 		Rule: "(1) exhaustive: ALL strings of length <= k over the 27-symbol syntax alphabet '0 1 9 a x v r . - _ + ~ ^ : ! = < > , | SPACE * [ ] ( ) @' (quick k=4: 551 880 strings, thorough k=5: 14.9 M) " +
 			"through NewVersion and NewVersionRange of all 20 ecosystems and through vers.Contains (as constraint text of all 11 schemes, as whole range, and as probe); every accepted value is then compared with itself " +
 			"and fixed others / range-tested against fixed probes and String()ed; (2) hostile byte-level mutations of generated valid strings (invalid UTF-8, NUL, controls, multi-byte runes) and size ladders up to 10^5 " +
-			"characters under a CPU-time budget of 5 s + 20 ns*n^2 per call plus a growth-ratio monitor; (3) the built univers binary on hostile argument vectors (exit status in {0,1}, no signal, one line on success, no result on failure). " +
+			"characters under a CPU-time budget of 5 s + 20 ns*n^2 per call plus a growth-ratio monitor; hostile values are also compared with each other; (3) the built univers binary on hostile argument vectors (exit status in {0,1}, no signal, one line on success, no result on failure); " +
+			"(4) native coverage-guided Go fuzzing (FuzzVersion, FuzzRange, FuzzVers) for a fixed number of executions. " +
 			"Oracles: recover() at the call boundary (panic), value-xor-error, (true,err) from vers.Contains, CPU budget. Non-trivial = distinct (entry point, accepted | masked error-message template) pairs",
 		Assumptions: []string{"CPU time from getrusage; no wall-clock verdicts", "a child that dies of a runtime fatal error is re-run in trace mode to attribute the input"},
 		MinEvals:    1000000,
@@ -437,6 +438,23 @@ func evalC06(c *core.Ctx, e *eco.Eco, op string, args []string) []core.Violation
 	if len(args) == 0 {
 		return nil
 	}
+	if op == "fuzz" && len(args) == 2 && args[1] != "" {
+		// put the corpus entry back and run the target on it
+		goBin := os.Getenv("VERIF_GO")
+		if goBin == "" {
+			goBin = "go"
+		}
+		dir := filepath.Join(c.Dir, "harness", "fuzz", "testdata", "fuzz", args[0])
+		os.MkdirAll(dir, 0o755)
+		defer os.RemoveAll(filepath.Join(c.Dir, "harness", "fuzz", "testdata"))
+		os.WriteFile(filepath.Join(dir, "replay"), []byte(args[1]), 0o644)
+		cmd := exec.Command(goBin, "test", "-run", "^"+args[0]+"$", "./fuzz")
+		cmd.Dir = filepath.Join(c.Dir, "harness")
+		if out, err := cmd.CombinedOutput(); err != nil {
+			return []core.Violation{{Eco: "fuzz", Op: "fuzz", Args: args, Rule: "fuzz-crasher", Got: trunc(string(out), 1500)}}
+		}
+		return nil
+	}
 	if op == "CLI" {
 		bin := filepath.Join(c.Dir, ".build", "univers.replay")
 		if err := buildCLI(bin); err != nil {
@@ -581,14 +599,16 @@ func runC06(c *core.Ctx, ck *Check) {
 		of    int
 	}
 	var jobs []childJob
+	parts := os.Getenv("VERIF_C06_PARTS") // debugging aid: comma list of exhaust,hostile,ladder,cli,fuzz
+	on := func(p string) bool { return parts == "" || strings.Contains(","+parts+",", ","+p+",") }
 	shards := c.Scale(16, 64)
-	for s := 0; s < shards; s++ {
+	for s := 0; s < shards && on("exhaust"); s++ {
 		jobs = append(jobs, childJob{"exhaust", s, shards})
 	}
-	for s := 0; s < c.Scale(4, 16); s++ {
+	for s := 0; s < c.Scale(4, 16) && on("hostile"); s++ {
 		jobs = append(jobs, childJob{"hostile", s, c.Scale(4, 16)})
 	}
-	for s := 0; s < 12; s++ {
+	for s := 0; s < 12 && on("ladder"); s++ {
 		jobs = append(jobs, childJob{"ladder", s, 12})
 	}
 	var mu sync.Mutex
@@ -674,7 +694,61 @@ func runC06(c *core.Ctx, ck *Check) {
 	w.Merge()
 	c.Note("distinct_error_templates_per_entry_point", perEntry)
 	c.Note("exhaustive_subspace", fmt.Sprintf("all strings of length <= %d over %q through every entry point", c.Scale(4, 5), c06Alphabet))
-	runC06CLI(c)
+	if on("cli") {
+		runC06CLI(c)
+	}
+	if on("fuzz") {
+		runC06Fuzz(c)
+	}
+}
+
+var fuzzExecs = regexp.MustCompile(`execs: ([0-9]+)`)
+var fuzzFailFile = regexp.MustCompile(`testdata/fuzz/(Fuzz[A-Za-z]+)/([0-9a-f]+)`)
+
+// runC06Fuzz runs the native Go fuzz targets (harness/fuzz) for a fixed number of executions each.
+func runC06Fuzz(c *core.Ctx) {
+	goBin := os.Getenv("VERIF_GO")
+	if goBin == "" {
+		goBin = "go"
+	}
+	w := c.NewW()
+	defer w.Merge()
+	n := c.Scale(150000, 20000000)
+	fdir := filepath.Join(c.Dir, "harness", "fuzz")
+	for _, target := range []string{"FuzzVersion", "FuzzRange", "FuzzVers"} {
+		cmd := exec.Command("timeout", "-s", "QUIT", itoa(c.Scale(600, 5400)), goBin, "test", "-run", "^$", "-fuzz", "^"+target+"$", "-fuzztime", itoa(n)+"x", "./fuzz")
+		cmd.Dir = filepath.Join(c.Dir, "harness")
+		out, err := cmd.CombinedOutput()
+		text := string(out)
+		execs := int64(0)
+		for _, m := range fuzzExecs.FindAllStringSubmatch(text, -1) {
+			if v, e2 := strconv.ParseInt(m[1], 10, 64); e2 == nil && v > execs {
+				execs = v
+			}
+		}
+		w.Count("evaluations", execs)
+		w.Count("fuzz_execs:"+target, execs)
+		if err == nil {
+			continue
+		}
+		if m := fuzzFailFile.FindStringSubmatch(text); m != nil {
+			cf := filepath.Join(fdir, "testdata", "fuzz", m[1], m[2])
+			content, _ := os.ReadFile(cf)
+			os.Remove(cf)
+			msg := text
+			if k := strings.Index(text, "--- FAIL"); k >= 0 {
+				msg = text[k:]
+			}
+			w.Report(core.Violation{Eco: "fuzz", Op: "fuzz", Args: []string{target, string(content)}, Rule: "fuzz-crasher", Got: trunc(msg, 2500), Want: "no failing input"})
+			continue
+		}
+		if strings.Contains(text, "FAIL") {
+			w.Report(core.Violation{Eco: "fuzz", Op: "fuzz", Args: []string{target, ""}, Rule: "fuzz-failure", Got: trunc(text, 2500)})
+			continue
+		}
+		c.Inconclusive("fuzz target " + target + " did not run: " + trunc(text, 300))
+	}
+	os.RemoveAll(filepath.Join(fdir, "testdata"))
 }
 
 // runC06CLI drives the built binary with hostile argument vectors.
